@@ -1687,3 +1687,140 @@ Example grant_many_inhabited :
     entry s' (bs "rd") (bs "tb") = Some (mkPerm false true) /\
     entry s' (bs "rd") (bs "ta") = Some (mkPerm true true).
 Proof. eexists. repeat split; vm_compute; reflexivity. Qed.
+
+(** * Frame property: only CREATE USER and REVOKE KEY touch an account's [active] flag *)
+
+Definition active_of (s : state) (id : bytes) : option bool :=
+  match alookup id (st_users s) with Some u => Some (u_active u) | None => None end.
+
+Lemma put_user_active_of : forall s u id,
+  active_of (put_user s u) id = if bytes_eqb id (u_id u) then Some (u_active u) else active_of s id.
+Proof.
+  intros s u id. unfold active_of, put_user, set_users_cache. cbn [st_users].
+  destruct (bytes_eqb id (u_id u)) eqn:E; beq.
+  - subst. rewrite alookup_ainsert_same. reflexivity.
+  - rewrite alookup_ainsert_other by exact E. reflexivity.
+Qed.
+
+(** the manager-level permission operations keep every account's flag *)
+Theorem grant_permission_keeps_active : forall s id0 t p id,
+  active_of (snd (grant_permission s id0 t p)) id = active_of s id.
+Proof.
+  intros s id0 t p id. unfold grant_permission.
+  destruct (alookup id0 (st_users s)) as [u|] eqn:L; [|reflexivity]. cbn [snd].
+  rewrite put_user_active_of. cbn [u_id u_active].
+  destruct (bytes_eqb id id0) eqn:E; [|reflexivity]. beq. subst. unfold active_of. rewrite L. reflexivity.
+Qed.
+
+Theorem revoke_permission_keeps_active : forall s id0 t id,
+  active_of (snd (revoke_permission s id0 t)) id = active_of s id.
+Proof.
+  intros s id0 t id. unfold revoke_permission.
+  destruct (alookup id0 (st_users s)) as [u|] eqn:L; [|reflexivity]. cbn [snd].
+  rewrite put_user_active_of. cbn [u_id u_active].
+  destruct (bytes_eqb id id0) eqn:E; [|reflexivity]. beq. subst. unfold active_of. rewrite L. reflexivity.
+Qed.
+
+Lemma grant_loop_keeps_active : forall ts s r w id0 id,
+  active_of (snd (grant_loop s r w ts id0)) id = active_of s id.
+Proof.
+  induction ts as [|t ts IH]; intros s r w id0 id; cbn [grant_loop]; [reflexivity|].
+  destruct (negb (smem t (st_schemas s))); [reflexivity|].
+  destruct (grant_permission s id0 t _) as [[e|] s'] eqn:G; [reflexivity|].
+  rewrite IH. change s' with (snd (@None auth_err, s')). rewrite <- G. apply grant_permission_keeps_active.
+Qed.
+
+Lemma revoke_loop_keeps_active : forall ts s r w id0 id,
+  active_of (snd (revoke_loop s r w ts id0)) id = active_of s id.
+Proof.
+  induction ts as [|t ts IH]; intros s r w id0 id; cbn [revoke_loop]; [reflexivity|].
+  destruct (grant_permission s id0 t _) as [[e|] s'] eqn:G; [reflexivity|].
+  rewrite IH. change s' with (snd (@None auth_err, s')). rewrite <- G. apply grant_permission_keeps_active.
+Qed.
+
+(** what CREATE USER and REVOKE KEY do to the flag *)
+Lemma create_user_active_of : forall s id0 key fk roles id,
+  active_of (snd (create_user s id0 key fk roles)) id = active_of s id \/
+  (id = id0 /\ active_of s id = None /\ active_of (snd (create_user s id0 key fk roles)) id = Some true).
+Proof.
+  intros s id0 key fk roles id. unfold create_user.
+  destruct (validate_user_id id0); [left; reflexivity|].
+  destruct (match key with Some k => _ | None => false end); [left; reflexivity|].
+  destruct (alookup id0 (st_users s)) eqn:L; [left; reflexivity|]. cbn [snd].
+  rewrite put_user_active_of. cbn [u_id u_active].
+  destruct (bytes_eqb id id0) eqn:E; [|left; reflexivity]. beq. subst. right.
+  repeat split. unfold active_of. rewrite L. reflexivity.
+Qed.
+
+Lemma revoke_key_active_of : forall s id0 id,
+  active_of (snd (revoke_key s id0)) id = active_of s id \/
+  (id = id0 /\ active_of (snd (revoke_key s id0)) id = Some false).
+Proof.
+  intros s id0 id. unfold revoke_key. destruct (alookup id0 (st_users s)) as [u|]; [|left; reflexivity]. cbn [snd].
+  change (active_of (set_sessions ?a ?b) id) with (active_of a id).
+  rewrite put_user_active_of. cbn [u_id u_active].
+  destruct (bytes_eqb id id0) eqn:E; [|left; reflexivity]. beq. subst. right. split; reflexivity.
+Qed.
+
+(** Every command: the flag of account [id] is unchanged, unless the command is an executed
+    CREATE USER [id] (absent -> active) or REVOKE KEY [id] (-> inactive).  In particular GRANT,
+    REVOKE (any number of event types), DEFINE, STORE, … never change it. *)
+Theorem dispatch_active_frame : forall s who c k id,
+  let s' := snd (dispatch s who c k) in
+  active_of s' id = active_of s id \/
+  (exists key roles, c = CCreateUser id key roles /\ active_of s id = None /\ active_of s' id = Some true) \/
+  (c = CRevokeKey id /\ active_of s' id = Some false).
+Proof.
+  intros s who c k id. cbn zeta. destruct c; cbn [dispatch];
+    repeat match goal with
+    | |- context [snd (if ?b then _ else _)] => destruct b
+    | |- context [snd (match ?x with Some _ => _ | None => _ end)] => destruct x
+    end; try (left; reflexivity).
+  - destruct (create_user s id0 key k _) as [[e|] s'] eqn:C; [left; reflexivity|]. cbn [snd].
+    pose proof (create_user_active_of s id0 key k (match roles with Some r => r | None => [] end) id) as [H|(E & H1 & H2)];
+      rewrite C in *; cbn [snd] in *; [left; exact H|]. subst. right. left. eauto.
+  - destruct (revoke_key s id0) as [[e|] s'] eqn:C; [left; reflexivity|]. cbn [snd].
+    pose proof (revoke_key_active_of s id0 id) as [H|(E & H)]; rewrite C in *; cbn [snd] in *; [left; exact H|].
+    subst. right. right. auto.
+  - left. apply grant_loop_keeps_active.
+  - left. apply revoke_loop_keeps_active.
+Qed.
+
+Theorem perm_commands_keep_active : forall s who r w ts uid k id,
+  active_of (snd (dispatch s who (CGrant r w ts uid) k)) id = active_of s id /\
+  active_of (snd (dispatch s who (CRevokePerm r w ts uid) k)) id = active_of s id.
+Proof.
+  intros. split.
+  - destruct (dispatch_active_frame s who (CGrant r w ts uid) k id) as [H|[(key & roles & E & _)|(E & _)]];
+      [exact H|discriminate|discriminate].
+  - destruct (dispatch_active_frame s who (CRevokePerm r w ts uid) k id) as [H|[(key & roles & E & _)|(E & _)]];
+      [exact H|discriminate|discriminate].
+Qed.
+
+(** Over every step of every history (gates, sessions, restart included): a flag only ever goes
+    absent -> active (account created) or -> inactive (key revoked); never inactive -> active. *)
+Theorem step_active_frame : forall s s' id, step s s' ->
+  active_of s' id = active_of s id \/
+  (active_of s id = None /\ active_of s' id = Some true) \/
+  active_of s' id = Some false.
+Proof.
+  intros s s' id H. destruct H.
+  - destruct (create_user_active_of s id0 key fk roles id) as [E|(_ & E1 & E2)]; auto.
+  - destruct (revoke_key_active_of s id0 id) as [E|(_ & E)]; auto.
+  - left. apply grant_permission_keeps_active.
+  - left. apply revoke_permission_keeps_active.
+  - left. reflexivity.
+  - left. reflexivity.
+  - left. reflexivity.
+  - destruct (dispatch_active_frame s who c k id) as [E|[(key & roles & _ & E1 & E2)|(_ & E)]]; auto.
+  - left. pose proof (gate_tcp_users hmac cfg s conn line now tok) as [E1 _]. cbn zeta in E1.
+    unfold active_of. rewrite E1. reflexivity.
+  - left. reflexivity.
+Qed.
+
+Theorem never_reactivated : forall s0 s id, reachable_from s0 s ->
+  active_of s0 id = Some false -> active_of s id = Some false.
+Proof.
+  intros s0 s id R. induction R as [|s s' R IH St]; intro A0; [exact A0|]. specialize (IH A0).
+  destruct (step_active_frame s s' id St) as [E|[(E & _)|E]]; congruence.
+Qed.
